@@ -308,6 +308,17 @@ class Repo:
                     if bc is not None:
                         c.bases.append(bc)
                         bc.subclasses.append(c)
+        # signatures by bare name, kept only where every definition of the name agrees (used by sym to normalise keyword arguments)
+        sigs = {}
+        for f in self.all_functions:
+            node = getattr(f, "node", None)
+            if not isinstance(node, (ast.FunctionDef, ast.AsyncFunctionDef)):
+                continue
+            ps = [a.arg for a in node.args.posonlyargs + node.args.args if a.arg not in ("self", "cls")]
+            sigs.setdefault(node.name, set()).add(tuple(ps))
+        from . import sym as _sym_mod
+        _sym_mod.SIGNATURES.clear()
+        _sym_mod.SIGNATURES.update({k: list(next(iter(v))) for k, v in sigs.items() if len(v) == 1 and not k.startswith("__init__")})
 
     # ---------------------------------------------------------------- lookup
     def module(self, short: str) -> ModuleInfo:
